@@ -25,7 +25,7 @@ def budget(tier):
 
 
 def gen(R, tier):
-    case = resgen.gen_cut_string(R, tier, min_frags=2, with_levels=R.choice([1, 1, 2, 2, 3]))
+    case = resgen.gen_cut_string(R, tier, min_frags=2, with_levels=R.choice([1, 1, 2, 2, 3]), shared_atoms=R.chance(0.3))
     if case is None:
         return None
     if R.chance(0.25):
